@@ -216,3 +216,709 @@ Proof.
   - apply Qle_shift_div_l; [exact Hpos|]. lra.
   - apply Qle_shift_div_r; [exact Hpos|]. lra.
 Qed.
+
+
+(* ---------------------------------------------------------------- arg-max *)
+
+Lemma Qle_bool_false a b : Qle_bool a b = false -> b < a.
+Proof.
+  intro H. apply Qnot_le_lt. intro L. apply Qle_bool_iff in L. congruence.
+Qed.
+
+Lemma argmax_from_spec : forall t pre best besti,
+  nth_error pre besti = Some best ->
+  (forall q, In q pre -> q <= best) ->
+  (forall j q, (j < besti)%nat -> nth_error pre j = Some q -> q < best) ->
+  exists p, nth_error (pre ++ t) (argmax_from best besti (length pre) t) = Some p /\
+            (forall q, In q (pre ++ t) -> q <= p) /\
+            (forall j q, (j < argmax_from best besti (length pre) t)%nat ->
+                         nth_error (pre ++ t) j = Some q -> q < p).
+Proof.
+  induction t as [|x t IH]; intros pre best besti Hb Hall Hfirst; cbn [argmax_from].
+  - rewrite app_nil_r. exists best. auto.
+  - assert (Hlt : (besti < length pre)%nat) by (apply nth_error_Some; congruence).
+    destruct (Qle_bool x best) eqn:E.
+    + apply Qle_bool_iff in E.
+      specialize (IH (pre ++ [x]) best besti).
+      rewrite app_length in IH. cbn [length] in IH. rewrite Nat.add_1_r in IH.
+      rewrite <- app_assoc in IH. cbn [app] in IH. apply IH.
+      * rewrite nth_error_app1 by exact Hlt. exact Hb.
+      * intros q Hq. apply in_app_iff in Hq. destruct Hq as [Hq|[<-|[]]]; auto.
+      * intros j q Hj Hq. rewrite nth_error_app1 in Hq by lia. eauto.
+    + apply Qle_bool_false in E.
+      specialize (IH (pre ++ [x]) x (length pre)).
+      rewrite app_length in IH. cbn [length] in IH. rewrite Nat.add_1_r in IH.
+      rewrite <- app_assoc in IH. cbn [app] in IH. apply IH.
+      * rewrite nth_error_app2 by lia. rewrite Nat.sub_diag. reflexivity.
+      * intros q Hq. apply in_app_iff in Hq. destruct Hq as [Hq|[<-|[]]]; [|lra].
+        specialize (Hall q Hq). lra.
+      * intros j q Hj Hq. rewrite nth_error_app1 in Hq by lia.
+        apply nth_error_In in Hq. specialize (Hall q Hq). lra.
+Qed.
+
+(* np.argmax: the entry is maximal and every earlier entry is strictly smaller *)
+Lemma argmax_first_spec row : row <> [] ->
+  exists p, nth_error row (argmax_first row) = Some p /\
+            (forall q, In q row -> q <= p) /\
+            (forall j q, (j < argmax_first row)%nat -> nth_error row j = Some q -> q < p).
+Proof.
+  destruct row as [|x t]; [congruence|]. intros _. unfold argmax_first.
+  apply (argmax_from_spec t [x] x O).
+  - reflexivity.
+  - intros q [<-|[]]. lra.
+  - intros j q Hj. lia.
+Qed.
+
+Lemma argmax_first_lt row : row <> [] -> (argmax_first row < length row)%nat.
+Proof.
+  intros H. destruct (argmax_first_spec row H) as (p & Hp & _).
+  apply nth_error_Some. congruence.
+Qed.
+
+Lemma qmax_list_spec row : row <> [] ->
+  In (qmax_list row) row /\ forall q, In q row -> q <= qmax_list row.
+Proof.
+  destruct row as [|x t]; [congruence|]. intros _. unfold qmax_list.
+  assert (G : forall t m, In (fold_left (fun m y => if Qle_bool y m then m else y) t m) (m :: t) /\
+                          forall q, In q (m :: t) ->
+                                    q <= fold_left (fun m y => if Qle_bool y m then m else y) t m).
+  { clear. induction t as [|y t IH]; intros m; cbn [fold_left].
+    - split; [left; reflexivity|]. intros q [<-|[]]. lra.
+    - destruct (Qle_bool y m) eqn:E.
+      + apply Qle_bool_iff in E. destruct (IH m) as [H1 H2]. split.
+        * destruct H1 as [H1|H1]; [left; exact H1|right; right; exact H1].
+        * intros q [<-|[<-|Hq]].
+          -- apply H2. left. reflexivity.
+          -- specialize (H2 m (or_introl eq_refl)). lra.
+          -- apply H2. right. exact Hq.
+      + apply Qle_bool_false in E. destruct (IH y) as [H1 H2]. split.
+        * right. exact H1.
+        * intros q [<-|[<-|Hq]].
+          -- specialize (H2 y (or_introl eq_refl)). lra.
+          -- apply H2. left. reflexivity.
+          -- apply H2. right. exact Hq. }
+  apply G.
+Qed.
+
+(* ---------------------------------------------------------------- labels *)
+
+Section LabelProofs.
+  Variable L : Type.
+  Variable leb eqb : L -> L -> bool.
+  Hypothesis eqb_spec : forall a b, eqb a b = true <-> a = b.
+
+  Lemma eqb_refl a : eqb a a = true.
+  Proof. apply eqb_spec. reflexivity. Qed.
+  Lemma eqb_neq a b : eqb a b = false <-> a <> b.
+  Proof.
+    split; intro H.
+    - intro E. apply eqb_spec in E. congruence.
+    - destruct (eqb a b) eqn:E; [|reflexivity]. apply eqb_spec in E. contradiction.
+  Qed.
+
+  (* ---- classes_ *)
+  Lemma insert_in x l z : In z (insert leb eqb x l) <-> z = x \/ In z l.
+  Proof.
+    induction l as [|y t IH]; cbn [insert].
+    - cbn. intuition.
+    - destruct (eqb x y) eqn:E.
+      + apply eqb_spec in E. subst y. cbn. intuition.
+      + destruct (leb x y); cbn [In]; [intuition|]. rewrite IH. intuition.
+  Qed.
+
+  Lemma classes_of_in ys z : In z (classes_of leb eqb ys) <-> In z ys.
+  Proof.
+    unfold classes_of. induction ys as [|y t IH]; cbn [fold_right]; [reflexivity|].
+    rewrite insert_in, IH. cbn. intuition.
+  Qed.
+
+  Hypothesis leb_total : forall a b, leb a b = true \/ leb b a = true.
+  Hypothesis leb_trans : forall a b c, leb a b = true -> leb b c = true -> leb a c = true.
+  Hypothesis leb_antisym : forall a b, leb a b = true -> leb b a = true -> a = b.
+
+  Definition llt (a b : L) : Prop := leb a b = true /\ a <> b.
+
+  Lemma llt_trans a b c : llt a b -> llt b c -> llt a c.
+  Proof.
+    intros [H1 N1] [H2 N2]. split; [eapply leb_trans; eauto|].
+    intro E. subst c. apply N1. apply leb_antisym; assumption.
+  Qed.
+
+  Lemma insert_sorted x l : StronglySorted llt l -> StronglySorted llt (insert leb eqb x l).
+  Proof.
+    induction 1 as [|y t Hs IH Hy]; cbn [insert].
+    - constructor; constructor.
+    - destruct (eqb x y) eqn:E; [constructor; assumption|].
+      apply eqb_neq in E.
+      destruct (leb x y) eqn:E2.
+      + assert (Hxy : llt x y) by (split; assumption).
+        constructor; [constructor; assumption|]. constructor; [exact Hxy|].
+        eapply Forall_impl; [|exact Hy]. intros z Hz. eapply llt_trans; eauto.
+      + assert (Hyx : llt y x).
+        { split; [destruct (leb_total x y); congruence|congruence]. }
+        constructor; [exact IH|]. apply Forall_forall. intros z Hz.
+        apply insert_in in Hz. destruct Hz as [->|Hz]; [exact Hyx|].
+        rewrite Forall_forall in Hy. apply Hy. exact Hz.
+  Qed.
+
+  (* classes_ is strictly increasing, hence duplicate-free *)
+  Lemma classes_of_sorted ys : StronglySorted llt (classes_of leb eqb ys).
+  Proof.
+    unfold classes_of. induction ys as [|y t IH]; cbn [fold_right]; [constructor|].
+    apply insert_sorted. exact IH.
+  Qed.
+
+  Lemma sorted_nodup l : StronglySorted llt l -> NoDup l.
+  Proof.
+    induction 1 as [|y t Hs IH Hy]; constructor; [|exact IH].
+    intro Hin. rewrite Forall_forall in Hy. destruct (Hy y Hin) as [_ N]. congruence.
+  Qed.
+
+  Lemma classes_of_nodup ys : NoDup (classes_of leb eqb ys).
+  Proof. apply sorted_nodup, classes_of_sorted. Qed.
+
+  (* ---- votes *)
+  Lemma weight_for_cons c l w vs :
+    weight_for eqb c ((l, w) :: vs) == (if eqb l c then w else 0) + weight_for eqb c vs.
+  Proof.
+    unfold weight_for. cbn [filter fst]. destruct (eqb l c); cbn [map snd]; [reflexivity|].
+    lra.
+  Qed.
+
+  Lemma indicator_sum l w classes : NoDup classes ->
+    qsum (map (fun c => if eqb l c then w else 0) classes) ==
+    if existsb (eqb l) classes then w else 0.
+  Proof.
+    induction 1 as [|c cs Hnin Hnd IH]; cbn [map existsb]; [reflexivity|].
+    rewrite qsum_cons, IH. destruct (eqb l c) eqn:E; cbn [orb]; [|lra].
+    apply eqb_spec in E. subst c.
+    destruct (existsb (eqb l) cs) eqn:E2; [|lra].
+    apply existsb_exists in E2. destruct E2 as (z & Hz & Ez). apply eqb_spec in Ez. subst z.
+    contradiction.
+  Qed.
+
+  Lemma sum_weight_for classes vs : NoDup classes ->
+    (forall v, In v vs -> In (fst v) classes) ->
+    qsum (map (fun c => weight_for eqb c vs) classes) == total_weight vs.
+  Proof.
+    intros Hnd. induction vs as [|[l w] vs IH]; intros Hin.
+    - unfold weight_for, total_weight. cbn [filter map]. rewrite qsum_map_const. cbn. ring.
+    - rewrite (qsum_map_ext _ (fun c => (if eqb l c then w else 0) + weight_for eqb c vs))
+        by (intros; apply weight_for_cons).
+      rewrite qsum_map_plus, indicator_sum by exact Hnd.
+      rewrite IH by (intros v Hv; apply Hin; right; exact Hv).
+      assert (E : existsb (eqb l) classes = true).
+      { apply existsb_exists. exists l. split; [apply (Hin (l, w)); left; reflexivity|].
+        apply eqb_refl. }
+      rewrite E. unfold total_weight. cbn [map snd]. rewrite qsum_cons. reflexivity.
+  Qed.
+
+  Lemma weight_for_nonneg c vs : Forall (fun v => 0 <= snd v) vs -> 0 <= weight_for eqb c vs.
+  Proof.
+    intros H. unfold weight_for. apply qsum_nonneg. apply Forall_forall. intros p Hp.
+    apply in_map_iff in Hp. destruct Hp as (v & <- & Hv). apply filter_In in Hv.
+    rewrite Forall_forall in H. apply H. tauto.
+  Qed.
+
+  Lemma votes_normalised_is_distribution classes vs :
+    NoDup classes -> (forall v, In v vs -> In (fst v) classes) ->
+    Forall (fun v => 0 <= snd v) vs -> 0 < total_weight vs ->
+    is_dist (length classes) (vote_row eqb classes vs).
+  Proof.
+    intros Hnd Hin Hw Hpos. unfold vote_row. apply dist_of_nonneg.
+    - apply map_length.
+    - apply Forall_forall. intros p Hp. apply in_map_iff in Hp. destruct Hp as (c & <- & _).
+      apply Qle_shift_div_l; [exact Hpos|]. pose proof (weight_for_nonneg c vs Hw). lra.
+    - rewrite (qsum_map_ext _ (fun c => weight_for eqb c vs * / total_weight vs))
+        by (intros; reflexivity).
+      rewrite qsum_map_scale, sum_weight_for by assumption. field. lra.
+  Qed.
+
+  (* column j of the row is the vote share of classes[j]; a class nobody voted for gets 0;
+     a unanimous vote gives a one-hot row *)
+  Lemma columns_follow_classes classes vs j :
+    nth_error (vote_row eqb classes vs) j =
+    option_map (fun c => weight_for eqb c vs / total_weight vs) (nth_error classes j).
+  Proof. unfold vote_row. apply nth_error_map. Qed.
+
+  Lemma unvoted_class_gets_zero c vs :
+    (forall v, In v vs -> fst v <> c) -> weight_for eqb c vs == 0.
+  Proof.
+    intros H. unfold weight_for.
+    assert (E : filter (fun v => eqb (fst v) c) vs = []).
+    { induction vs as [|v vs IH]; [reflexivity|]. cbn [filter].
+      assert (eqb (fst v) c = false) by (apply eqb_neq; apply H; left; reflexivity).
+      rewrite H0. apply IH. intros u Hu. apply H. right. exact Hu. }
+    rewrite E. reflexivity.
+  Qed.
+
+  Lemma unanimous_vote_is_one_hot c vs :
+    (forall v, In v vs -> fst v = c) -> weight_for eqb c vs == total_weight vs.
+  Proof.
+    intros H. unfold weight_for, total_weight.
+    assert (E : filter (fun v => eqb (fst v) c) vs = vs).
+    { induction vs as [|v vs IH]; [reflexivity|]. cbn [filter].
+      assert (eqb (fst v) c = true) by (apply eqb_spec; apply H; left; reflexivity).
+      rewrite H0. f_equal. apply IH. intros u Hu. apply H. right. exact Hu. }
+    rewrite E. reflexivity.
+  Qed.
+
+  (* ---- predict *)
+  Lemma prob_of_nth : forall classes row i l p, NoDup classes ->
+    nth_error classes i = Some l -> nth_error row i = Some p ->
+    prob_of eqb classes row l = Some p.
+  Proof.
+    induction classes as [|c cs IH]; intros row i l p Hnd Hc Hr; [destruct i; discriminate|].
+    destruct row as [|r rs]; [destruct i; discriminate|]. cbn [prob_of].
+    destruct i as [|i]; cbn in Hc, Hr.
+    - inversion Hc; inversion Hr; subst. rewrite eqb_refl. reflexivity.
+    - inversion Hnd as [|? ? Hnin Hnd']; subst.
+      assert (E : eqb c l = false).
+      { apply eqb_neq. intro. subst c. apply Hnin. eapply nth_error_In. exact Hc. }
+      rewrite E. eapply IH; eauto.
+  Qed.
+
+  Lemma prob_of_in : forall classes row l p,
+    prob_of eqb classes row l = Some p -> In l classes /\ In p row.
+  Proof.
+    induction classes as [|c cs IH]; intros [|r rs] l p H; cbn [prob_of] in H; try discriminate.
+    destruct (eqb c l) eqn:E.
+    - apply eqb_spec in E. inversion H; subst. split; left; reflexivity.
+    - destruct (IH rs l p H). split; right; assumption.
+  Qed.
+
+  Lemma predict_attains_max_and_is_training_label ys row :
+    ys <> [] -> length row = length (classes_of leb eqb ys) ->
+    exists l p, predict_label (classes_of leb eqb ys) row = Some l /\ In l ys /\
+                prob_of eqb (classes_of leb eqb ys) row l = Some p /\
+                (forall q, In q row -> q <= p).
+  Proof.
+    intros Hne Hlen.
+    assert (Hc : classes_of leb eqb ys <> []).
+    { destruct ys as [|y t]; [congruence|]. intro E.
+      assert (In y (classes_of leb eqb (y :: t))) by (apply classes_of_in; left; reflexivity).
+      rewrite E in H. destruct H. }
+    assert (Hr : row <> []).
+    { intro E. subst row. cbn in Hlen. destruct (classes_of leb eqb ys); [congruence|discriminate]. }
+    destruct (argmax_first_spec row Hr) as (p & Hp & Hmax & _).
+    pose proof (argmax_first_lt row Hr) as Hlt. rewrite Hlen in Hlt.
+    destruct (nth_error (classes_of leb eqb ys) (argmax_first row)) as [l|] eqn:El.
+    - exists l, p. unfold predict_label. split; [exact El|]. split.
+      + apply classes_of_in. eapply nth_error_In. exact El.
+      + split; [|exact Hmax]. eapply prob_of_nth; eauto. apply classes_of_nodup.
+    - apply nth_error_None in El. lia.
+  Qed.
+
+  (* ---- score *)
+  Lemma matches_filter : forall preds ys,
+    matches eqb preds ys =
+    length (filter (fun p => eqb (fst p) (snd p)) (combine preds ys)).
+  Proof.
+    induction preds as [|p ps IH]; intros [|y yt]; cbn [matches combine filter length];
+      try reflexivity.
+    cbn [fst snd]. destruct (eqb p y); cbn [length]; rewrite IH; lia.
+  Qed.
+
+  Lemma matches_le : forall preds ys, (matches eqb preds ys <= length ys)%nat.
+  Proof.
+    induction preds as [|p ps IH]; intros [|y yt]; cbn [matches length]; try lia.
+    specialize (IH yt). destruct (eqb p y); lia.
+  Qed.
+
+  Lemma matches_all : forall preds ys, length preds = length ys ->
+    (matches eqb preds ys = length ys <-> preds = ys).
+  Proof.
+    induction preds as [|p ps IH]; intros [|y yt] Hl; cbn in Hl; try discriminate.
+    - cbn. tauto.
+    - cbn [matches length]. pose proof (matches_le ps yt) as Hle.
+      destruct (eqb p y) eqn:E.
+      + apply eqb_spec in E. subst y. specialize (IH yt ltac:(congruence)). split; intro H.
+        * f_equal. apply IH. lia.
+        * inversion H; subst. assert (matches eqb yt yt = length yt) by (apply IH; reflexivity). lia.
+      + apply eqb_neq in E. split; intro H; [lia|]. inversion H. congruence.
+  Qed.
+
+  Lemma score_is_fraction_correct preds ys :
+    length preds = length ys -> ys <> [] ->
+    accuracy eqb preds ys ==
+      inject_Z (Z.of_nat (length (filter (fun p => eqb (fst p) (snd p)) (combine preds ys))))
+      / qlen ys /\
+    0 <= accuracy eqb preds ys /\ accuracy eqb preds ys <= 1 /\
+    (accuracy eqb preds ys == 1 <-> preds = ys).
+  Proof.
+    intros Hl Hne. pose proof (qlen_pos ys Hne) as Hpos. unfold accuracy.
+    rewrite <- matches_filter. split; [reflexivity|].
+    pose proof (matches_le preds ys) as Hle.
+    assert (Hq : inject_Z (Z.of_nat (matches eqb preds ys)) <= qlen ys).
+    { unfold qlen. rewrite <- Zle_Qle. lia. }
+    assert (H0 : 0 <= inject_Z (Z.of_nat (matches eqb preds ys))).
+    { change 0 with (inject_Z 0). rewrite <- Zle_Qle. lia. }
+    rewrite <- matches_all by exact Hl.
+    remember (inject_Z (Z.of_nat (matches eqb preds ys))) as m eqn:Em.
+    split; [apply Qle_shift_div_l; [exact Hpos|rewrite Qmult_0_l; exact H0]|].
+    split; [apply Qle_shift_div_r; [exact Hpos|rewrite Qmult_1_l; exact Hq]|].
+    split; intro H.
+    - assert (E : m == qlen ys).
+      { apply (Qmult_inj_r _ _ (/ qlen ys)).
+        - intro Z0. assert (qlen ys * / qlen ys == 1) by (apply Qmult_inv_r; lra).
+          rewrite Z0 in H1. lra.
+        - unfold Qdiv in H. rewrite H. rewrite Qmult_inv_r; [reflexivity|lra]. }
+      rewrite Em in E. unfold qlen in E. apply (proj1 (inject_Z_injective _ _)) in E. lia.
+    - rewrite Em, H. unfold qlen. field. unfold qlen in Hpos. lra.
+  Qed.
+End LabelProofs.
+
+
+(* ---------------------------------------------------------------- the concrete label universe *)
+
+Lemma zs_eqb_spec : forall a b, zs_eqb a b = true <-> a = b.
+Proof.
+  induction a as [|x a IH]; intros [|y b]; cbn [zs_eqb]; try (split; congruence).
+  rewrite andb_true_iff, IH, Z.eqb_eq. split; [intros [-> ->]; reflexivity|].
+  intro H. inversion H. auto.
+Qed.
+
+Lemma zs_leb_total : forall a b, zs_leb a b = true \/ zs_leb b a = true.
+Proof.
+  induction a as [|x a IH]; intros [|y b]; cbn [zs_leb]; auto.
+  destruct (Z.ltb_spec x y), (Z.ltb_spec y x), (Z.eqb_spec x y), (Z.eqb_spec y x);
+    auto; try lia.
+Qed.
+
+Lemma zs_leb_trans : forall a b c, zs_leb a b = true -> zs_leb b c = true -> zs_leb a c = true.
+Proof.
+  induction a as [|x a IH]; intros [|y b] [|z c]; cbn [zs_leb]; auto; try discriminate.
+  destruct (Z.ltb_spec x y), (Z.ltb_spec y z), (Z.ltb_spec x z),
+    (Z.eqb_spec x y), (Z.eqb_spec y z), (Z.eqb_spec x z); auto; try lia; try discriminate.
+  apply IH.
+Qed.
+
+Lemma zs_leb_antisym : forall a b, zs_leb a b = true -> zs_leb b a = true -> a = b.
+Proof.
+  induction a as [|x a IH]; intros [|y b]; cbn [zs_leb]; auto; try discriminate.
+  destruct (Z.ltb_spec x y), (Z.ltb_spec y x), (Z.eqb_spec x y), (Z.eqb_spec y x);
+    try lia; try discriminate.
+  intros H1 H2. subst y. f_equal. apply IH; assumption.
+Qed.
+
+Lemma label_eqb_spec a b : label_eqb a b = true <-> a = b.
+Proof.
+  destruct a as [x|x], b as [y|y]; cbn [label_eqb]; try (split; congruence).
+  - rewrite Z.eqb_eq. split; congruence.
+  - rewrite zs_eqb_spec. split; congruence.
+Qed.
+Lemma label_leb_total a b : label_leb a b = true \/ label_leb b a = true.
+Proof.
+  destruct a as [x|x], b as [y|y]; cbn [label_leb]; auto.
+  - destruct (Z.leb_spec x y), (Z.leb_spec y x); auto. lia.
+  - apply zs_leb_total.
+Qed.
+Lemma label_leb_trans a b c :
+  label_leb a b = true -> label_leb b c = true -> label_leb a c = true.
+Proof.
+  destruct a as [x|x], b as [y|y], c as [z|z]; cbn [label_leb]; auto; try discriminate.
+  - rewrite !Z.leb_le. lia.
+  - apply zs_leb_trans.
+Qed.
+Lemma label_leb_antisym a b : label_leb a b = true -> label_leb b a = true -> a = b.
+Proof.
+  destruct a as [x|x], b as [y|y]; cbn [label_leb]; try discriminate.
+  - rewrite !Z.leb_le. intros. f_equal. lia.
+  - intros. f_equal. apply zs_leb_antisym; assumption.
+Qed.
+
+(* ---------------------------------------------------------------- forest features *)
+
+Lemma times_from_length k n : length (times_from k n) = n.
+Proof. revert k. induction n; intros k; cbn; [reflexivity|]. f_equal. apply IHn. Qed.
+
+Definition qn (n : nat) : Q := inject_Z (Z.of_nat n).
+Lemma qn_S n : qn (S n) == qn n + 1.
+Proof. unfold qn. rewrite Nat2Z.inj_succ. unfold Z.succ. rewrite inject_Z_plus. ring. Qed.
+Lemma qn_nonneg n : 0 <= qn n.
+Proof. unfold qn. change 0 with (inject_Z 0). rewrite <- Zle_Qle. lia. Qed.
+Lemma qn_ge2 n : (2 <= n)%nat -> 2 <= qn n.
+Proof. intro H. unfold qn. change 2 with (inject_Z 2). rewrite <- Zle_Qle. lia. Qed.
+
+(* sum of k, k+1, .., k+n-1 and of their squares *)
+Lemma sum_times k n : qsum (times_from k n) == qn n * k + qn n * (qn n - 1) / 2.
+Proof.
+  revert k. induction n as [|n IH]; intros k.
+  - cbn. unfold qn. cbn. field.
+  - cbn [times_from]. rewrite qsum_cons, IH, qn_S. field.
+Qed.
+
+Lemma map2_cons {A B C} (f : A -> B -> C) a l b m :
+  map2 f (a :: l) (b :: m) = f a b :: map2 f l m.
+Proof. reflexivity. Qed.
+
+Lemma sum_times_sq k n :
+  qsum (map2 Qmult (times_from k n) (times_from k n)) ==
+  qn n * k * k + k * qn n * (qn n - 1) + (qn n - 1) * qn n * (2 * qn n - 1) / 6.
+Proof.
+  revert k. induction n as [|n IH]; intros k.
+  - cbn. unfold qn. cbn. field.
+  - cbn [times_from]. rewrite map2_cons, qsum_cons, IH, qn_S. field.
+Qed.
+
+(* sum of (t - a)(y - b) expanded *)
+Lemma centred_expand : forall ts ys a b, length ts = length ys ->
+  qsum (map2 (fun t y => (t - a) * (y - b)) ts ys) ==
+  qsum (map2 Qmult ts ys) - a * qsum ys - b * qsum ts + qlen ts * a * b.
+Proof.
+  induction ts as [|t ts IH]; intros [|y ys] a b H; cbn in H; try discriminate.
+  - cbn. unfold qlen. cbn. ring.
+  - rewrite !map2_cons, !qsum_cons, qlen_cons, IH by congruence. ring.
+Qed.
+
+Lemma map2_mult_comm : forall a b, qsum (map2 Qmult a b) == qsum (map2 Qmult b a).
+Proof.
+  induction a as [|x a IH]; intros [|y b]; try reflexivity.
+  rewrite !map2_cons, !qsum_cons, IH. ring.
+Qed.
+
+Lemma sxy_moment ts ys : length ts = length ys -> ts <> [] ->
+  sxy ts ys == qsum (map2 Qmult ts ys) - qsum ts * qsum ys / qlen ts.
+Proof.
+  intros H Hne. pose proof (qlen_pos ts Hne) as Hpos. unfold sxy.
+  rewrite centred_expand by exact H. unfold qmean.
+  assert (E : qlen ys == qlen ts) by (unfold qlen; rewrite H; reflexivity).
+  rewrite E. field. lra.
+Qed.
+
+(* S_tt of the time index 1..n is n (n^2 - 1) / 12 > 0 for n >= 2 *)
+Lemma stt_closed n : (1 <= n)%nat ->
+  sxy (times_from 1 n) (times_from 1 n) == qn n * (qn n * qn n - 1) / 12.
+Proof.
+  intro Hn. rewrite sxy_moment; [| reflexivity | destruct n; [lia|discriminate]].
+  rewrite sum_times_sq, sum_times. unfold qlen. rewrite times_from_length. fold (qn n).
+  assert (0 < qn n). { pose proof (qn_nonneg n). unfold qn in *.
+    change 0 with (inject_Z 0). rewrite <- Zlt_Qlt. lia. }
+  field. lra.
+Qed.
+
+Lemma stt_pos n : (2 <= n)%nat -> 0 < sxy (times_from 1 n) (times_from 1 n).
+Proof.
+  intro Hn. rewrite stt_closed by lia. pose proof (qn_ge2 n Hn).
+  apply Qlt_shift_div_l; [lra|]. nra.
+Qed.
+
+(* _slope as written is the least-squares slope *)
+Lemma code_slope_is_ols ys : (2 <= length ys)%nat -> code_slope ys == ols_slope ys.
+Proof.
+  intro Hn. unfold code_slope, ols_slope.
+  set (ts := times_from 1 (length ys)).
+  assert (Hl : length ts = length ys) by apply times_from_length.
+  assert (Hne : ts <> []) by (intro E; rewrite E in Hl; cbn in Hl; lia).
+  pose proof (qlen_pos ts Hne) as Hpos.
+  pose proof (stt_pos (length ys) Hn) as Hstt. fold ts in Hstt.
+  rewrite (sxy_moment ts ys Hl Hne). rewrite (sxy_moment ts ts eq_refl Hne) in *.
+  unfold qmean. rewrite (map2_mult_comm ys ts).
+  assert (E : qlen ys == qlen ts) by (unfold qlen; rewrite Hl; reflexivity).
+  assert (E2 : qlen (map2 Qmult ys ts) == qlen ts).
+  { unfold qlen, map2. rewrite map_length, combine_length, Hl, Nat.min_id. reflexivity. }
+  assert (E3 : qlen (map2 Qmult ts ts) == qlen ts).
+  { unfold qlen, map2. rewrite map_length, combine_length, Nat.min_id. reflexivity. }
+  rewrite E, E2, E3.
+  set (A := qsum (map2 Qmult ts ys)) in *. set (B := qsum (map2 Qmult ts ts)) in *.
+  set (S := qsum ts) in *. set (Y := qsum ys) in *. set (N := qlen ts) in *.
+  clearbody A B S Y N. clear E E2 E3.
+  assert (H : B * N - S * S == (B - S * S / N) * N) by (field; lra).
+  field. split; [lra|]. rewrite H. intro Z0. nra.
+Qed.
+
+(* the normal equations: with a = ybar - b tbar the residuals sum to 0 and are orthogonal to t *)
+Lemma resid_sum : forall ts ys a b, length ts = length ys ->
+  qsum (map2 (fun t y => y - a - b * t) ts ys) == qsum ys - qlen ts * a - b * qsum ts.
+Proof.
+  induction ts as [|t ts IH]; intros [|y ys] a b H; cbn in H; try discriminate.
+  - cbn. unfold qlen. cbn. ring.
+  - rewrite !map2_cons, !qsum_cons, qlen_cons, IH by congruence. ring.
+Qed.
+Lemma resid_tsum : forall ts ys a b, length ts = length ys ->
+  qsum (map2 (fun t y => t * (y - a - b * t)) ts ys) ==
+  qsum (map2 Qmult ts ys) - a * qsum ts - b * qsum (map2 Qmult ts ts).
+Proof.
+  induction ts as [|t ts IH]; intros [|y ys] a b H; cbn in H; try discriminate.
+  - cbn. ring.
+  - rewrite !map2_cons, !qsum_cons, IH by congruence. ring.
+Qed.
+
+Lemma ols_normal_equations ys : (2 <= length ys)%nat ->
+  let ts := times_from 1 (length ys) in
+  let a := ols_intercept ys in let b := ols_slope ys in
+  qsum (map2 (fun t y => y - a - b * t) ts ys) == 0 /\
+  qsum (map2 (fun t y => t * (y - a - b * t)) ts ys) == 0.
+Proof.
+  intro Hn. cbv zeta. unfold ols_intercept, ols_slope.
+  set (ts := times_from 1 (length ys)).
+  assert (Hl : length ts = length ys) by apply times_from_length.
+  assert (Hne : ts <> []) by (intro E; rewrite E in Hl; cbn in Hl; lia).
+  pose proof (qlen_pos ts Hne) as Hpos.
+  pose proof (stt_pos (length ys) Hn) as Hstt. fold ts in Hstt.
+  rewrite resid_sum, resid_tsum by exact Hl.
+  assert (E : qlen ys == qlen ts) by (unfold qlen; rewrite Hl; reflexivity).
+  unfold qmean. rewrite E.
+  rewrite (sxy_moment ts ys Hl Hne). rewrite (sxy_moment ts ts eq_refl Hne) in *.
+  set (A := qsum (map2 Qmult ts ys)) in *. set (B := qsum (map2 Qmult ts ts)) in *.
+  set (S := qsum ts) in *. set (Y := qsum ys) in *. set (N := qlen ts) in *.
+  clearbody A B S Y N. clear E.
+  assert (H : B * N - S * S == (B - S * S / N) * N) by (field; lra).
+  assert (H2 : ~ B * N - S * S == 0) by (rewrite H; intro Z0; nra).
+  split; field; (split; [lra|exact H2]).
+Qed.
+
+Lemma sq_nonneg (a : Q) : 0 <= a * a.
+Proof.
+  destruct (Qlt_le_dec a 0) as [H|H].
+  - setoid_replace (a * a) with ((- a) * (- a)) by ring. apply Qmult_le_0_compat; lra.
+  - apply Qmult_le_0_compat; lra.
+Qed.
+
+Lemma qvar_nonneg l : l <> [] -> 0 <= qvar l.
+Proof.
+  intro Hne. unfold qvar. generalize (qmean l). intro m.
+  assert (Hm : map (fun v => (v - m) * (v - m)) l <> []) by (destruct l; [congruence|discriminate]).
+  apply (qmean_between _ 0 (qsum (map (fun v => (v - m) * (v - m)) l))); [exact Hm|].
+  assert (Hnn : Forall (fun p => 0 <= p) (map (fun v => (v - m) * (v - m)) l)).
+  { apply Forall_forall. intros p Hp. apply in_map_iff in Hp. destruct Hp as (v & <- & _). apply sq_nonneg. }
+  apply Forall_forall. intros p Hp. split.
+  - rewrite Forall_forall in Hnn. apply Hnn. exact Hp.
+  - apply qsum_ge_member; assumption.
+Qed.
+
+Lemma tsf_features_length ivs x : length (tsf_features ivs x) = (3 * length ivs)%nat.
+Proof.
+  unfold tsf_features. induction ivs as [|iv ivs IH]; cbn [flat_map length]; [reflexivity|].
+  rewrite app_length, IH. cbn. lia.
+Qed.
+
+(* sampled intervals lie inside the series and are at least min_interval wide *)
+Lemma get_intervals_within : forall ni mi sl draws, (1 <= mi)%Z -> (mi < sl)%Z ->
+  Forall (fun iv => (0 <= fst iv /\ fst iv + mi <= snd iv /\ snd iv < sl)%Z)
+         (get_intervals ni mi sl draws).
+Proof.
+  induction ni as [|k IH]; intros mi sl draws H1 H2; cbn [get_intervals]; [constructor|].
+  destruct draws as [|d1 [|d2 rest]]; try constructor; [|apply IH; assumption].
+  cbn [fst snd].
+  pose proof (Z.mod_pos_bound d1 (sl - mi) ltac:(lia)) as B1.
+  set (s := (d1 mod (sl - mi))%Z) in *.
+  pose proof (Z.mod_pos_bound d2 (sl - s - 1) ltac:(lia)) as B2.
+  destruct (Z.ltb_spec (d2 mod (sl - s - 1)) mi); lia.
+Qed.
+
+Lemma get_intervals_length : forall ni mi sl draws, (2 * ni <= length draws)%nat ->
+  length (get_intervals ni mi sl draws) = ni.
+Proof.
+  induction ni as [|k IH]; intros mi sl draws H; cbn [get_intervals]; [reflexivity|].
+  destruct draws as [|d1 [|d2 rest]]; cbn in H; try lia. cbn [length]. f_equal. apply IH. lia.
+Qed.
+
+(* ---------------------------------------------------------------- the ensembles *)
+
+Lemma tsf_proba_is_mean_of_trees_on_features k forest x :
+  forest <> [] ->
+  (forall m, In m forest -> is_dist k (snd m (tsf_features (fst m) x))) ->
+  is_dist k (tsf_proba k forest x) /\
+  forall j, (j < k)%nat ->
+    nth j (tsf_proba k forest x) 0 ==
+    qsum (map (fun m => nth j (snd m (tsf_features (fst m) x)) 0) forest) / qlen forest.
+Proof.
+  intros Hne Hd. unfold tsf_proba, tsf_member_outputs.
+  assert (Hall : Forall (is_dist k) (map (fun m => snd m (tsf_features (fst m) x)) forest)).
+  { apply Forall_forall. intros r Hr. apply in_map_iff in Hr. destruct Hr as (m & <- & Hm). auto. }
+  split.
+  - apply avg_of_distributions_is_distribution; [|exact Hall].
+    destruct forest; [congruence|discriminate].
+  - intros j Hj. rewrite mean_rows_nth; [| |exact Hj].
+    + rewrite map_map. unfold qlen. rewrite map_length. reflexivity.
+    + eapply Forall_impl; [|exact Hall]. intros r (Hl & _). exact Hl.
+Qed.
+
+Lemma tsf_proba_depends_on_features_only k forest x x' :
+  (forall m, In m forest -> tsf_features (fst m) x = tsf_features (fst m) x') ->
+  tsf_proba k forest x = tsf_proba k forest x'.
+Proof.
+  intro H. unfold tsf_proba, tsf_member_outputs. f_equal. apply map_ext_in.
+  intros m Hm. cbn beta. f_equal. apply H. exact Hm.
+Qed.
+
+Lemma tsf_regressor_is_mean_of_trees forest x lo hi :
+  forest <> [] ->
+  (forall m, In m forest -> lo <= snd m (tsf_features (fst m) x) /\
+                            snd m (tsf_features (fst m) x) <= hi) ->
+  tsf_reg_predict forest x * qlen forest ==
+    qsum (map (fun m => snd m (tsf_features (fst m) x)) forest) /\
+  lo <= tsf_reg_predict forest x /\ tsf_reg_predict forest x <= hi.
+Proof.
+  intros Hne Hb. unfold tsf_reg_predict.
+  set (outs := map (fun m => snd m (tsf_features (fst m) x)) forest).
+  assert (Hq : qlen outs == qlen forest) by (unfold qlen, outs; rewrite map_length; reflexivity).
+  assert (Hne' : outs <> []) by (unfold outs; destruct forest; [congruence|discriminate]).
+  pose proof (qlen_pos outs Hne') as Hpos. split.
+  - unfold qmean. rewrite <- Hq. field. lra.
+  - apply qmean_between; [exact Hne'|]. apply Forall_forall. intros v Hv.
+    apply in_map_iff in Hv. destruct Hv as (m & <- & Hm). auto.
+Qed.
+
+Lemma column_ensemble_is_mean_of_members k members x :
+  members <> [] ->
+  (forall m, In m members -> is_dist k (snd m (select (fst m) x))) ->
+  is_dist k (colens_proba k members x) /\
+  forall j, (j < k)%nat ->
+    nth j (colens_proba k members x) 0 ==
+    qsum (map (fun m => nth j (snd m (select (fst m) x)) 0) members) / qlen members.
+Proof.
+  intros Hne Hd. unfold colens_proba, colens_member_outputs.
+  assert (Hall : Forall (is_dist k) (map (fun m => snd m (select (fst m) x)) members)).
+  { apply Forall_forall. intros r Hr. apply in_map_iff in Hr. destruct Hr as (m & <- & Hm). auto. }
+  split.
+  - apply avg_of_distributions_is_distribution; [|exact Hall].
+    destruct members; [congruence|discriminate].
+  - intros j Hj. rewrite mean_rows_nth; [| |exact Hj].
+    + rewrite map_map. unfold qlen. rewrite map_length. reflexivity.
+    + eapply Forall_impl; [|exact Hall]. intros r (Hl & _). exact Hl.
+Qed.
+
+(* a member sees only its own columns *)
+Lemma column_ensemble_uses_own_columns k members x x' :
+  (forall m c, In m members -> In c (fst m) -> nth c x [] = nth c x' []) ->
+  colens_proba k members x = colens_proba k members x'.
+Proof.
+  intro H. unfold colens_proba, colens_member_outputs. f_equal. apply map_ext_in.
+  intros m Hm. cbn beta. f_equal. unfold select. apply map_ext_in. intros c Hc. eapply H; eauto.
+Qed.
+
+
+(* ---------------------------------------------------------------- least squares optimality *)
+
+Definition sse (ts ys : list Q) (a b : Q) : Q :=
+  qsum (map2 (fun t y => (y - a - b * t) * (y - a - b * t)) ts ys).
+
+Lemma sse_decompose : forall ts ys a b a' b', length ts = length ys ->
+  sse ts ys a' b' ==
+  sse ts ys a b
+  + 2 * ((a - a') * qsum (map2 (fun t y => y - a - b * t) ts ys)
+         + (b - b') * qsum (map2 (fun t y => t * (y - a - b * t)) ts ys))
+  + qsum (map (fun t => ((a - a') + (b - b') * t) * ((a - a') + (b - b') * t)) ts).
+Proof.
+  unfold sse. induction ts as [|t ts IH]; intros [|y ys] a b a' b' H; cbn in H; try discriminate.
+  - cbn. ring.
+  - rewrite !map2_cons. cbn [map]. rewrite !qsum_cons.
+    rewrite (IH ys a b a' b') by congruence. ring.
+Qed.
+
+(* (ols_intercept, ols_slope) minimises the sum of squared residuals over all lines *)
+Lemma ols_minimises_sse ys a' b' : (2 <= length ys)%nat ->
+  let ts := times_from 1 (length ys) in
+  sse ts ys (ols_intercept ys) (ols_slope ys) <= sse ts ys a' b'.
+Proof.
+  intro Hn. cbv zeta.
+  assert (Hl : length (times_from 1 (length ys)) = length ys) by apply times_from_length.
+  rewrite (sse_decompose _ ys (ols_intercept ys) (ols_slope ys) a' b' Hl).
+  destruct (ols_normal_equations ys Hn) as [E1 E2]. cbv zeta in E1, E2. rewrite E1, E2.
+  match goal with |- _ <= _ + _ + qsum ?l => assert (Hs : 0 <= qsum l) end.
+  { apply qsum_nonneg. apply Forall_forall. intros p Hp. apply in_map_iff in Hp.
+    destruct Hp as (t & <- & _). apply sq_nonneg. }
+  lra.
+Qed.
